@@ -291,6 +291,250 @@ fn case_strategy(t: Tier) -> BoxedStrategy<Case> {
 // check
 // ---------------------------------------------------------------------------------------
 
+/// One index object that lives on: flattened and queried, then changed below its (nested)
+/// sections through the `*_mut` accessors, then flattened and queried again.
+#[derive(Clone, Debug, Hash, Serialize, Deserialize)]
+pub enum LOp {
+    /// nothing: flatten + lookups twice in a row
+    Again,
+    SetContents(u16, u16, Option<String>),
+    Ignore(u16, u16),
+    SetSource(u16, u16, String),
+    SetRoot(u16, Option<String>),
+    /// replace a leaf map by a one-token map (through `set_sourcemap` on its section)
+    ReplaceLeaf(u16, String),
+    CloneIndex,
+}
+
+#[derive(Clone, Debug, Hash, Serialize, Deserialize)]
+pub struct LCase {
+    pub index: MIndex,
+    pub ops: Vec<LOp>,
+}
+
+fn one_token_map(src: &str) -> MM {
+    MM {
+        file: None,
+        root: None,
+        sources: vec![src.to_string()],
+        contents: vec![Some(format!("// {src}"))],
+        names: vec![],
+        tokens: vec![MTok { dl: 0, dc: 0, src: Some(crate::refimpl::v3::RefSrc { id: 0, line: 1, col: 2, name: None }), range: false, junk: (0, 0) }],
+        ignore: vec![],
+        debug_id: None,
+        route: Route::Raw,
+        json: JsonStyle::default(),
+    }
+}
+
+/// Applies `f` to the `sel`-th leaf map (depth first) of the model and of the object alike.
+/// `f` gets the model map and the section that holds the object's map.
+fn with_leaf(ix: &mut MIndex, smi: &mut SourceMapIndex, left: &mut usize, f: &mut dyn FnMut(&mut MM, &mut sourcemap::SourceMapSection) -> Result<(), String>) -> Result<bool, String> {
+    for (k, sec) in ix.sections.iter_mut().enumerate() {
+        match &mut sec.map {
+            None => {}
+            Some(MAny::Index(inner)) => {
+                let osec = smi.get_section_mut(k as u32).ok_or("get_section_mut")?;
+                match osec.get_sourcemap_mut() {
+                    Some(DecodedMap::Index(oi)) => {
+                        if with_leaf(inner, oi, left, f)? {
+                            return Ok(true);
+                        }
+                    }
+                    _ => return Err("model and object disagree on a nested index".into()),
+                }
+            }
+            Some(MAny::Regular(mm)) => {
+                if *left == 0 {
+                    f(mm, smi.get_section_mut(k as u32).ok_or("get_section_mut")?)?;
+                    return Ok(true);
+                }
+                *left -= 1;
+            }
+            Some(MAny::Hermes(h)) => {
+                if *left == 0 {
+                    f(&mut h.map, smi.get_section_mut(k as u32).ok_or("get_section_mut")?)?;
+                    return Ok(true);
+                }
+                *left -= 1;
+            }
+        }
+    }
+    Ok(false)
+}
+
+fn count_leaves(ix: &MIndex) -> usize {
+    ix.sections
+        .iter()
+        .map(|s| match &s.map {
+            None => 0,
+            Some(MAny::Index(i)) => count_leaves(i),
+            Some(_) => 1,
+        })
+        .sum()
+}
+
+fn inner_map(sec: &mut sourcemap::SourceMapSection) -> Result<&mut sourcemap::SourceMap, String> {
+    match sec.get_sourcemap_mut() {
+        Some(DecodedMap::Regular(sm)) => Ok(sm),
+        Some(DecodedMap::Hermes(h)) => Ok(h),
+        _ => Err("model and object disagree on a leaf map".into()),
+    }
+}
+
+fn check_living(c: &LCase, obs: &mut Obs) -> Verdict {
+    let mut ix = c.index.clone();
+    let mut smi: SourceMapIndex = match ix.build() {
+        Ok(i) => i,
+        Err(e) => return Verdict::Fail(format!("building the index failed: {e}")),
+    };
+    let v = judge(&ix, &smi, &[], obs);
+    if !v.is_pass() {
+        return v;
+    }
+    let mut changed = false;
+    for (k, op) in c.ops.iter().enumerate() {
+        let leaves = count_leaves(&ix);
+        let r = guard(|| -> Result<(), String> {
+            let pick = |sel: u16| (sel as usize * leaves) >> 16;
+            match op {
+                LOp::Again => {}
+                LOp::CloneIndex => smi = smi.clone(),
+                LOp::SetContents(sel, src, text) if leaves > 0 => {
+                    with_leaf(&mut ix, &mut smi, &mut pick(*sel), &mut |mm, sec| {
+                        if mm.sources.is_empty() {
+                            return Ok(());
+                        }
+                        let i = (*src as usize * mm.sources.len()) >> 16;
+                        mm.contents.resize(mm.sources.len(), None);
+                        mm.contents[i] = text.clone();
+                        inner_map(sec)?.set_source_contents(i as u32, text.as_deref());
+                        Ok(())
+                    })?;
+                }
+                LOp::Ignore(sel, src) if leaves > 0 => {
+                    with_leaf(&mut ix, &mut smi, &mut pick(*sel), &mut |mm, sec| {
+                        if mm.sources.is_empty() {
+                            return Ok(());
+                        }
+                        let i = ((*src as usize * mm.sources.len()) >> 16) as u32;
+                        if !mm.ignore.contains(&i) {
+                            mm.ignore.push(i);
+                        }
+                        inner_map(sec)?.add_to_ignore_list(i);
+                        Ok(())
+                    })?;
+                }
+                LOp::SetSource(sel, src, name) if leaves > 0 => {
+                    with_leaf(&mut ix, &mut smi, &mut pick(*sel), &mut |mm, sec| {
+                        if mm.sources.is_empty() {
+                            return Ok(());
+                        }
+                        let i = (*src as usize * mm.sources.len()) >> 16;
+                        mm.sources[i] = name.clone();
+                        inner_map(sec)?.set_source(i as u32, name);
+                        Ok(())
+                    })?;
+                }
+                LOp::SetRoot(sel, root) if leaves > 0 => {
+                    with_leaf(&mut ix, &mut smi, &mut pick(*sel), &mut |mm, sec| {
+                        mm.root = root.clone();
+                        inner_map(sec)?.set_source_root(root.clone());
+                        Ok(())
+                    })?;
+                }
+                LOp::ReplaceLeaf(sel, src) if leaves > 0 => {
+                    let mut target = pick(*sel);
+                    // the section holding the leaf: replace model and object map
+                    fn replace(ix: &mut MIndex, smi: &mut SourceMapIndex, left: &mut usize, new: &MM) -> Result<bool, String> {
+                        for (k, sec) in ix.sections.iter_mut().enumerate() {
+                            match &mut sec.map {
+                                None => {}
+                                Some(MAny::Index(inner)) => {
+                                    let osec = smi.get_section_mut(k as u32).ok_or("get_section_mut")?;
+                                    if let Some(DecodedMap::Index(oi)) = osec.get_sourcemap_mut() {
+                                        if replace(inner, oi, left, new)? {
+                                            return Ok(true);
+                                        }
+                                    }
+                                }
+                                Some(_) => {
+                                    if *left == 0 {
+                                        sec.map = Some(MAny::Regular(new.clone()));
+                                        let built = new.build()?;
+                                        smi.get_section_mut(k as u32).ok_or("get_section_mut")?.set_sourcemap(Some(DecodedMap::Regular(built)));
+                                        return Ok(true);
+                                    }
+                                    *left -= 1;
+                                }
+                            }
+                        }
+                        Ok(false)
+                    }
+                    replace(&mut ix, &mut smi, &mut target, &one_token_map(src))?;
+                }
+                _ => {}
+            }
+            Ok(())
+        });
+        match r {
+            Ok(Ok(())) => {}
+            Ok(Err(e)) => return Verdict::Fail(format!("op {k} {op:?}: {e}")),
+            Err(p) => return Verdict::Fail(format!("op {k} {op:?}: {p}")),
+        }
+        obs.class(match op {
+            LOp::Again => "op:again",
+            LOp::SetContents(..) => "op:set_source_contents(below a section)",
+            LOp::Ignore(..) => "op:add_to_ignore_list(below a section)",
+            LOp::SetSource(..) => "op:set_source(below a section)",
+            LOp::SetRoot(..) => "op:set_source_root(below a section)",
+            LOp::ReplaceLeaf(..) => "op:set_sourcemap",
+            LOp::CloneIndex => "op:clone",
+        });
+        changed |= !matches!(op, LOp::Again | LOp::CloneIndex);
+        match judge(&ix, &smi, &[], obs) {
+            Verdict::Pass => {}
+            Verdict::Fail(m) => return Verdict::Fail(format!("after op {k} {op:?} (ops so far {:?}): {m}", &c.ops[..=k])),
+            other => return other,
+        }
+    }
+    let nested = ix.sections.iter().any(|s| matches!(s.map, Some(MAny::Index(_))));
+    obs.class_if(nested, "living-index-with-nested-index");
+    if changed && nested && c.ops.len() >= 2 {
+        obs.nontrivial();
+    }
+    Verdict::Pass
+}
+
+fn living(t: Tier) -> BoxedStrategy<LCase> {
+    let name = || proptest::sample::select(vec!["a.js", "lib/b.js", "/abs/c.js", "", "http://h/d.js", "x/a.js"]).prop_map(str::to_string);
+    let op = prop_oneof![
+        1 => Just(LOp::Again),
+        3 => (any::<u16>(), any::<u16>(), proptest::option::of(proptest::sample::select(vec!["", "new content", "x\ny"]).prop_map(str::to_string))).prop_map(|(a, b, t)| LOp::SetContents(a, b, t)),
+        2 => (any::<u16>(), any::<u16>()).prop_map(|(a, b)| LOp::Ignore(a, b)),
+        2 => (any::<u16>(), any::<u16>(), name()).prop_map(|(a, b, n)| LOp::SetSource(a, b, n)),
+        1 => (any::<u16>(), proptest::option::of(proptest::sample::select(vec!["", "r", "r/", "webpack:///"]).prop_map(str::to_string))).prop_map(|(a, r)| LOp::SetRoot(a, r)),
+        2 => (any::<u16>(), name()).prop_map(|(a, n)| LOp::ReplaceLeaf(a, n)),
+        1 => Just(LOp::CloneIndex),
+    ];
+    (raw_index(t.pick(2, 3)), vec(op, 1..6))
+        .prop_map(|(mut index, ops)| {
+            clip_index(&mut index, None);
+            // the object is built through the API (sections are reached through the mutators)
+            fn api(ix: &mut MIndex) {
+                ix.via_api = true;
+                for s in &mut ix.sections {
+                    if let Some(MAny::Index(i)) = &mut s.map {
+                        api(i);
+                    }
+                }
+            }
+            api(&mut index);
+            LCase { index, ops }
+        })
+        .boxed()
+}
+
 fn has_unresolved(ix: &MIndex) -> bool {
     ix.sections.iter().any(|s| match &s.map {
         None => true,
@@ -335,6 +579,11 @@ fn check(c: &Case, obs: &mut Obs) -> Verdict {
         Ok(i) => i,
         Err(e) => return Verdict::Fail(format!("building the index failed: {e}")),
     };
+    judge(ix, &smi, &c.random_queries, obs)
+}
+
+/// Everything C08 demands of the index object `smi`, which is in the state the model `ix` describes.
+fn judge(ix: &MIndex, smi: &SourceMapIndex, random_queries: &[(u32, u32)], obs: &mut Obs) -> Verdict {
     let expected = ref_flatten(ix);
     let flat = match guard(|| smi.flatten()) {
         Ok(r) => r,
@@ -403,7 +652,7 @@ fn check(c: &Case, obs: &mut Obs) -> Verdict {
     let flat_ref = expected.as_ref().ok();
     let as_decoded = DecodedMap::Index(smi.clone());
     let mut first_line_right = false;
-    for q in queries(ix, flat_ref, &c.random_queries) {
+    for q in queries(ix, flat_ref, random_queries) {
         obs.inner_evals += 1;
         let want = ref_index_lookup(ix, q);
         for (how, got) in [
@@ -466,7 +715,10 @@ fn check(c: &Case, obs: &mut Obs) -> Verdict {
 }
 
 fn subs() -> Vec<Sub> {
-    vec![gen_sub("indexes", case_strategy, |t| t.pick(90_000, 400_000), check)]
+    vec![
+        gen_sub("living_index", living, |t| t.pick(12_000, 150_000), check_living),
+        gen_sub("indexes", case_strategy, |t| t.pick(90_000, 400_000), check),
+    ]
 }
 
 pub const DEF: PropertyDef = PropertyDef {
